@@ -422,8 +422,11 @@ func pkgDirOf(fn *ssa.Function) string {
 }
 
 func (rp *replayer) build(pkgDir string, eng *Engine) (string, error) {
-	if b, ok := rp.built[pkgDir]; ok {
-		if e := rp.err[pkgDir]; e != "" {
+	race := strings.HasSuffix(pkgDir, "#race")
+	cacheKey := pkgDir
+	pkgDir = strings.TrimSuffix(pkgDir, "#race")
+	if b, ok := rp.built[cacheKey]; ok {
+		if e := rp.err[cacheKey]; e != "" {
 			return "", fmt.Errorf("%s", e)
 		}
 		return b, nil
@@ -473,14 +476,19 @@ func (rp *replayer) build(pkgDir string, eng *Engine) (string, error) {
 	ovPath := filepath.Join(rp.tmp, "overlay-"+strings.ReplaceAll(pkgDir, "/", "_")+".json")
 	os.WriteFile(ovPath, ovBuf, 0o644)
 	bin := filepath.Join(rp.tmp, strings.ReplaceAll(pkgDir, "/", "_")+".test")
-	cmd := exec.Command("go", "test", "-c", "-tags", "verif", "-vet=off", "-overlay", ovPath, "-o", bin, "./"+pkgDir)
+	args := []string{"test", "-c", "-tags", "verif", "-vet=off", "-overlay", ovPath, "-o", bin, "./" + pkgDir}
+	if race {
+		bin += ".race"
+		args = []string{"test", "-c", "-race", "-tags", "verif", "-vet=off", "-overlay", ovPath, "-o", bin, "./" + pkgDir}
+	}
+	cmd := exec.Command("go", args...)
 	cmd.Dir = repoSrc
 	cmd.Env = goEnv()
 	out, err := cmd.CombinedOutput()
-	rp.built[pkgDir] = bin
+	rp.built[cacheKey] = bin
 	if err != nil {
-		rp.err[pkgDir] = fmt.Sprintf("native build failed: %v\n%s", err, out)
-		return "", fmt.Errorf("%s", rp.err[pkgDir])
+		rp.err[cacheKey] = fmt.Sprintf("native build failed: %v\n%s", err, out)
+		return "", fmt.Errorf("%s", rp.err[cacheKey])
 	}
 	return bin, nil
 }
@@ -498,6 +506,9 @@ func firstGo(dir string) string {
 // replay runs the harness natively with the recorded values; returns whether the same assertion failed.
 func (rp *replayer) replay(fn *ssa.Function, v *Verdict, cexPath string) (bool, string) {
 	pkgDir := pkgDirOf(fn)
+	if v.Kind == "race" {
+		pkgDir += "#race" // the native twin runs under the Go race detector
+	}
 	bin, err := rp.build(pkgDir, nil)
 	if err != nil {
 		return false, err.Error()
@@ -524,6 +535,9 @@ func (rp *replayer) replay(fn *ssa.Function, v *Verdict, cexPath string) (bool, 
 		last = lastLines(txt, 6)
 		if os.Getenv("GOSYM_REPLAY_VERBOSE") != "" {
 			fmt.Fprintln(os.Stderr, txt)
+		}
+		if v.Kind == "race" && strings.Contains(txt, "WARNING: DATA RACE") {
+			return true, "the Go race detector reports a data race natively: " + raceFunctions(txt)
 		}
 		switch v.Kind {
 		case "assert", "leak", "deadlock", "race":
@@ -613,4 +627,31 @@ func cmdReplay(id string, args []string) int {
 	}
 	fmt.Fprintln(os.Stderr, "harness not found:", c.Harness)
 	return 2
+}
+
+// raceFunctions extracts the first two repository functions named in a race report.
+func raceFunctions(txt string) string {
+	var fns []string
+	for _, l := range strings.Split(txt, "\n") {
+		l = strings.TrimSpace(l)
+		if strings.HasPrefix(l, "github.com/bartossh/Computantis/src/") && !strings.Contains(l, "VH_") && !strings.Contains(l, ".vh") {
+			f := strings.TrimPrefix(l, "github.com/bartossh/Computantis/src/")
+			if i := strings.Index(f, "("); i > 0 && strings.HasSuffix(f, ")") {
+				f = f[:strings.LastIndex(f, "(")]
+			}
+			dup := false
+			for _, x := range fns {
+				if x == f {
+					dup = true
+				}
+			}
+			if !dup {
+				fns = append(fns, f)
+			}
+			if len(fns) == 2 {
+				break
+			}
+		}
+	}
+	return strings.Join(fns, " vs ")
 }
